@@ -164,7 +164,8 @@ MUTANTS = [
     dict(id='c07-no-frame-size-returns', property='C07',
          what="header-only prefix of a method frame with size 0 ... "
               "'No frame size' guard removed (falls through)",
-         edits=[(F, "    if not frame_size and not is_heartbeat:\n        "
+         edits=[(F, "    if not frame_size and not is_heartbeat and not "
+                    "is_empty_body:\n        "
                     "raise exceptions.UnmarshalingException('Unknown', "
                     "'No frame size')\n",
                  "    if frame_size is None:\n        raise TypeError("
